@@ -6,6 +6,7 @@ props = [json.loads(l) for l in open(os.path.join(V, 'properties.jsonl'))]
 
 SERVER_NOTE = ('Trusted base: TLC, the Go harness (recorder, gate scheduler, instrumented channel and its generic-JSON record classifier), '
                'testing/synctest quiescence. Exhaustive only within the constants of the spec/cfg files; beyond them seeded simulation. '
+               'Operations held in progress (a Send or Close parked inside the instrumented channel, the library\'s lock held) use an extended quiescence read from goroutine dumps (DESIGN 10.16). '
                'Handlers are assumed to return when the harness releases them.')
 def server(pid, what, ref):
     return dict(
@@ -28,7 +29,8 @@ def client(pid, what, ref):
         ref=ref, note=SERVER_NOTE.replace('Handlers are assumed to return when the harness releases them.', 'The peer is assumed to close its end after the client closes (as the property states).'))
 
 TABLE_NOTE = ('Trusted base: TLC evaluation of the reference module, the concretisation (abstract class -> byte strings / Go values) and abstraction code of the named harness package '
-              '(deliberately dumb: string templates, encoding/json generic decode, byte equality). Exhaustive over the abstract product stated in the evidence; concrete values within a class are sampled (VERIF_SEED).')
+              '(deliberately dumb: string templates, encoding/json generic decode, byte equality). Exhaustive over the abstract product stated in the evidence; concrete values within a class are sampled (VERIF_SEED). '
+              'Beyond the table the harness runs directed blocks for what no per-call table can say (overlapping and parallel calls, element-by-element references, sequences of sizes, restarts); they are listed per property in DESIGN 10.9-10.17.')
 def table(pid, module, pkg, what, ref):
     return dict(
         technique='TLA+ reference function (spec/%s.tla) evaluated by TLC over the complete product of abstract input classes and exported as a table; every cell concretised and replayed into the real code (harness/%s); outcomes outside the allowed set are violations' % (module, pkg),
